@@ -567,6 +567,17 @@ class GenHistorySuite:
             spec = random_spec(rng)
             ops = [rng.choice(["H", "B", "bob", "single"]) for _ in range(30)]
             yield {"spec": spec, "ops": ops}
+        # the built-in methods on every supported stage, plain courses (judged against their textbook notation)
+        for stage in range(3, 17):
+            for kind in ("plain_hunt", "grandsire", "stedman"):
+                if (kind == "grandsire" and stage < 5) or (kind == "stedman" and (stage < 5 or stage % 2 == 0)):
+                    continue
+                k = 2 * stage + 7 if kind != "stedman" else 31
+                ops = ["H" if i % 2 == 0 else "B" for i in range(k)]
+                if rng.random() < 0.5:
+                    ops = ops[:rng.randint(3, k - 1)] + ["reset"] + ops[:12]
+                yield {"spec": {"kind": kind, "stage": stage, "custom": random_custom_row(rng, stage) if rng.random() < 0.3 else None},
+                       "ops": ops}
 
     def run_impl(self, case):
         try:
@@ -601,6 +612,38 @@ class GenHistorySuite:
                 return f"row {i} = {r} is not a complete row on {want}"
         if out["exn"] is not None and case["spec"]["kind"] != "complib":
             return f"generator raised {out['exn']}"
+        return None
+
+    def oracle_C02(self, case, out):
+        """the built-in methods, by their textbook notation: Plain Hunt x.1n / n.1, Grandsire 3.1.n.1.n.1... (x for n on
+        even stages) over 2n changes, Stedman 3.1.n.3.1.3.1.3.n.1.3.1 - n being the LAST PLACE of the stage"""
+        spec = case["spec"]
+        if spec["kind"] not in ("plain_hunt", "grandsire", "stedman") or "rows" not in out:
+            return None
+        if any(o in ("bob", "single") for o in case["ops"]):
+            return None
+        n = spec["stage"]
+        last = [n] if n % 2 else []
+        if spec["kind"] == "plain_hunt":
+            expanded = [[], [1, n]] if n % 2 == 0 else [[n], [1]]
+        elif spec["kind"] == "grandsire":
+            expanded = [[3]] + [([1] if i % 2 else last) for i in range(1, 2 * n)]
+        else:
+            expanded = [[3], [1], [n], [3], [1], [3], [1], [3], [n], [1], [3], [1]]
+        want, seg = [], []
+        for o in list(case["ops"]) + ["reset"]:
+            if o == "reset":
+                part = reference_rows(n, out["start_row"], expanded, {}, {}, 0, seg)
+                if part is None:
+                    return None
+                want += part
+                seg = []
+            else:
+                seg.append("next")
+        got = [r for r, _ in out["rows"]]
+        for i, (g, w) in enumerate(zip(got, want)):
+            if g != w:
+                return f"{spec['kind']} on {n}: row {i} is {g}, the method's notation gives {w}"
         return None
 
     def oracle_C04(self, case, out):
